@@ -16,13 +16,17 @@ META = {
 }
 
 
-def job_accepts(job, depth, maxlen, syms='ab'):
+def _tup(x):
+    return tuple(_tup(e) for e in x) if isinstance(x, list) else x
+
+
+def job_accepts(job, depth, maxlen, syms='ab', shape=None):
     from gambatools.regexp_algorithms import regexp_accepts_word
-    from .regexp_sym import skeleton, Sem, regexp_json
+    from .regexp_sym import skeleton, shaped, Sem, regexp_json
     job.functions('regexp_algorithms', ['regexp_accepts_word'])
     job.functions('regexp', ['Zero', 'One', 'Symbol', 'Iteration', 'Sum', 'Concat'])
     syms = list(syms)
-    r = skeleton(depth, syms)
+    r = shaped(_tup(shape), syms) if shape is not None else skeleton(depth, syms)
     job.inputs['r'] = r
     job.decoders['r'] = lambda mv: regexp_json(r, mv)
     words = c.words_upto(syms, maxlen)
@@ -46,12 +50,12 @@ def job_accepts(job, depth, maxlen, syms='ab'):
     return job.solve()
 
 
-def job_simplify(job, depth, maxlen, syms='ab'):
+def job_simplify(job, depth, maxlen, syms='ab', shape=None):
     from gambatools.regexp_algorithms import regexp_simplify, regexp_size
-    from .regexp_sym import skeleton, Sem, regexp_json
+    from .regexp_sym import skeleton, shaped, Sem, regexp_json
     job.functions('regexp_algorithms', ['regexp_simplify', 'regexp_size'])
     syms = list(syms)
-    r = skeleton(depth, syms)
+    r = shaped(_tup(shape), syms) if shape is not None else skeleton(depth, syms)
     job.inputs['r'] = r
     job.decoders['r'] = lambda mv: regexp_json(r, mv)
     s = regexp_simplify(r)
@@ -93,6 +97,14 @@ def jobs(tier):
         add('accepts_d2_L3', job_accepts, depth=2, maxlen=3)
         add('accepts_d1_L4', job_accepts, depth=1, maxlen=4)
         add('simplify_d2_L3', job_simplify, depth=2, maxlen=3)
+        # selected depth-3 shapes (root operator fixed = one cube of the depth-3 space each)
+        add('accepts_star_of_d2_L3', job_accepts, depth=3, maxlen=3, shape=['I', 2])
+        add('accepts_concat_d1_star_d1_L4', job_accepts, depth=3, maxlen=4, shape=['C', 1, ['I', 1]])
+        add('simplify_star_of_d2_L3', job_simplify, depth=3, maxlen=3, shape=['I', 2])
+        add('simplify_concat_stars_L3', job_simplify, depth=3, maxlen=3, shape=['C', ['I', 1], ['I', 1]])
+        add('simplify_sum_stars_L3', job_simplify, depth=3, maxlen=3, shape=['S', ['I', 1], ['I', 1]])
+        add('simplify_concat_d2_d1_L3', job_simplify, depth=3, maxlen=3, shape=['C', 2, 1])
+        add('simplify_sum_d1_d2_L3', job_simplify, depth=3, maxlen=3, shape=['S', 1, 2])
     else:
         add('accepts_d2_L5', job_accepts, depth=2, maxlen=5)
         add('accepts_d3_L3', job_accepts, depth=3, maxlen=3, timeout=3000)
